@@ -10,10 +10,11 @@
    num_samp2 = ceil(n_read*spf2/spf1), the short-read adjustments (LINCOM
    returns 0 on an empty second read, the others go on with an unwritten
    buffer), kernels indexing B[i*spfB/spfA], MPLEX start
-   value (look-back over the index field, unlimited).
+   value (look-back over the index field, limited by the handle's lookback setting
+   and the field's period / default cycle).
    Not mirrored: GD_TRANSACTION_MAX clamps and the 2^63 range checks (counts
    are assumed far below them), the (int) cast of num_samp2, the chunking of
-   the MPLEX look-back (one read of [0,first_samp2) here), the MPLEX
+   the MPLEX look-back (one read of [lb_start,first_samp2) here), the MPLEX
    last-sample cache, complex data. *)
 From Coq Require Import ZArith List Bool Lia.
 From GD Require Import C06.Convert C01.Field.
@@ -24,7 +25,7 @@ Definition obind {X Y} (o : option X) (f : X -> option Y) : option Y :=
   match o with Some x => f x | None => None end.
 
 Section Impl.
-Context (A : Alg) (db : database) (v : variant).
+Context (A : Alg) (db : database) (v : variant) (lb : Z).
 
 (* read(2) of ns samples at sample offset off of the data file *)
 Definition file_read (data : list Z) (off ns : Z) : list Z :=
@@ -111,7 +112,7 @@ Fixpoint impl_read (rt : ctype) (f : field) (s n : Z) {struct f} : option (list 
       let n1'' := alim n3 n1' s1 s3 r3 in
       Some (map (fun i => tkern A o rt (buf X i) (buf Y ((r2 + i * s2) / s1)) (buf W ((r3 + i * s3) / s1)))
                 (zrange 0 n1'')))))
-  | Mplex g h cnt _ =>
+  | Mplex g h cnt per =>
       obind (impl_read rt g s n) (fun X =>
       let n1 := zlen X in
       if n1 =? 0 then Some [] else
@@ -123,12 +124,14 @@ Fixpoint impl_read (rt : ctype) (f : field) (s n : Z) {struct f} : option (list 
       if n2 =? 0 then Some [] else
       obind
         (if mplex_match A cnt (buf Y 0) then Some (pad A rt)
+         else if lb =? 0 then Some (pad A rt)          (* no look-back (and no re-seek) *)
          else
+           let lo := mplex_lo lb cnt per f2 in         (* lb_start *)
            obind
-             (if f2 <=? 0 then Some (pad A rt)
+             (if f2 <=? lo then Some (pad A rt)
               else
-                obind (impl_read I32 h 0 f2) (fun L =>
-                match last_match cnt L 0 None with
+                obind (impl_read I32 h lo (f2 - lo)) (fun L =>
+                match last_match cnt L lo None with
                 | Some j =>
                     obind (impl_read rt g (j * s1 / s2) 1) (fun R => Some (hd (pad A rt) R))
                 | None => Some (pad A rt)
